@@ -26,6 +26,9 @@ MSA = 'merge_ska_array::MergeSkaArray'
 
 
 def run(facts, chk, tier, only=None):
+    from . import e2e
+    # the subcommand's computation, functionally, on small unambiguous tables (filters + distance + pair enumeration)
+    chk.guard('C14.e2e', 'C14.e2e:run', lambda: e2e.check_distance_e2e(facts, chk, 'C14.e2e', tier))
     # ---------------------------------------------------------------- const
     def const():
         d = facts.fn('generic_modes::distance')
